@@ -348,6 +348,48 @@ def oracle_C02(rs, n, ctx):
     return R
 
 
+def contrast3d_stage(R, rs, n, pid):
+    """3D models with strong contrasts (slowness drawn from {0.2, 1, 3, 8}) on non-cubic cells, plus the stored inputs on
+    which the unguarded 8-point operator produced negative traveltimes (fix: see known_findings.json): every traveltime
+    is >= 0 and not earlier than the straight line at the smallest slowness by more than one cell (the C01 bound for 3D)."""
+    import json as _json
+    cases = []
+    try:
+        for c in _json.load(open(os.path.join(os.path.dirname(os.path.abspath(__file__)), "probes_neg3d.json"))):
+            cases.append((1.0 / np.asarray(c["slow"], dtype=float), tuple(c["d"]), np.asarray(c["src"], dtype=float), "probe"))
+    except OSError:
+        pass
+    for _ in range(n):
+        cells = tuple(int(x) for x in rs.randint(1, 4, 3))
+        v = 1.0 / rs.choice([1.0, 8.0, 0.2, 3.0], size=cells)
+        d = tuple(float(x) for x in rs.choice([0.5, 1.0, 2.0, 4.0, 0.25, 8.0], 3))
+        if rs.rand() < 0.6:
+            src = np.array([rs.randint(0, cells[a] + 1) * d[a] for a in range(3)])
+        else:
+            src = np.array([rs.rand() * cells[a] * d[a] for a in range(3)])
+        cases.append((v, d, src, "contrast"))
+    for v, d, src, kind in cases:
+        rep = model_replay(v, d, [0.0, 0.0, 0.0], src, kind=kind)
+        try:
+            g = eik(3)(np.ascontiguousarray(v), d).solve(src, nsweep=3).grid
+        except Exception as ex:  # noqa: BLE001
+            R.violate(f"{pid}:raises", f"{type(ex).__name__}: {ex}", rep)
+            continue
+        R.bump("contrast3d_cases")
+        if not np.isfinite(g).all() or (g < 0).any():
+            k = np.unravel_index(np.argmin(g), g.shape)
+            R.violate(f"{pid}:negative-3d", f"3D traveltime {g[k]!r} at node {tuple(int(x) for x in k)}", rep)
+            continue
+        G, _ = node_coords(g.shape, d, [0.0, 0.0, 0.0])
+        dist = np.sqrt(sum((G[a] - src[a]) ** 2 for a in range(3)))
+        smin = float((1.0 / v).min())
+        defi = (smin * dist - g) / (max(d) * smin)
+        R.maxstat("contrast3d_max_lower_deficit_in_cells", float(defi.max()))
+        if defi.max() > 1.0 + 1e-9:
+            k = np.unravel_index(np.argmax(defi), g.shape)
+            R.violate(f"{pid}:faster-than-physics-3d", f"node {tuple(int(x) for x in k)}: T={g[k]!r} earlier than smin*dist by {defi[k]:.2f} cells", rep)
+
+
 # --------------------------------------------------------------------------------------- C03
 def staircase_bound(slow_max, cells, d):
     return slow_max * sum(cells[a] * d[a] for a in range(len(d)))
@@ -408,7 +450,7 @@ def oracle_C03(rs, n, ctx):
             # the list form carries the same metadata per item
             src2 = abs_source(o, gens.rand_source_rel(rs, cells, d, cls="interior")[0], d, cells)
             try:
-                lst = eik(nd)(v, d, o).solve(np.array([src, src2]))
+                lst = eik(nd)(v, d, o).solve(np.array([src, src2]), return_gradient=grad)  # same flag as the single solve (cf. F6)
                 for k_, (t_, s_) in enumerate(zip(lst, (src, src2))):
                     if not (np.array_equal(np.asarray(t_.source), s_) and tuple(t_.gridsize) == tuple(d)
                             and np.array_equal(t_.origin, np.asarray(o)) and tuple(t_.grid.shape) == tuple(c + 1 for c in cells)):
@@ -427,6 +469,7 @@ def oracle_C03(rs, n, ctx):
             onface = any(abs(eff[a] / d[a] - round(eff[a] / d[a])) < 1e-9 for a in range(nd))
             if not (onface and float(tt._vzero) in cands):
                 R.violate("C03:vzero", f"vzero {tt._vzero!r} is not the slowness of the source cell {1.0 / v[tuple(ci)]!r}", rep)
+    contrast3d_stage(R, np.random.RandomState(rs.randint(0, 2 ** 31 - 1)), max(20, 2 * n), "C03")
     return R
 
 
@@ -503,6 +546,7 @@ def oracle_C04(rs, n, ctx):
             continue
         R.case((nd, cells, d, kind, scls, "lb"), None)
         lower_bound_clause(R, g, v, d, o, src, nd, rep)
+    contrast3d_stage(R, np.random.RandomState(rs.randint(0, 2 ** 31 - 1)), max(20, 2 * n), "C04")
     return R
 
 
